@@ -17,7 +17,7 @@ SPEC = dict(
     require=['state-compared-with-model', 'terminator-after-content-inside-capacity', 'formatted-append-equals-libc-formatter',
              'utf_catc-appends-encoding-plus-nul', 'getc-returns-last-byte', 'getn-returns-tail-bytes',
              'trim-removes-exactly-the-set-members-at-the-ends', 'setn-bounds', 'setm-capacity', 'swap',
-             'exit-hands-over-terminated-content', 'cmp-orders-like-bytewise-lexicographic-then-length', 'accessors'],
+             'exit-hands-over-terminated-content', 'cmp-orders-like-bytewise-lexicographic-then-length', 'accessors', 'ctor-dtor-on-caller-storage'],
     cov_files=['str.c'], cov_cases=600,
     assumptions=_COMMON + ['libc snprintf is the oracle for formatted append (the property says "what the C formatter produces")',
                            'a_str_setm_ is only called with mem >= length; a_str_setn_ only with num < mem (documented preconditions)',
